@@ -296,7 +296,7 @@ func TestPropScaledEncodeLocateRebuild(t *testing.T) {
 			class = "scaled-near-small-boundary"
 		}
 		vlib.Case(fmt.Sprintf("scaled %v D=%d seed=%#x lost=%v sizes=%v reads=%d crossing=%d", c, d, seed, lost, extra, reads, crossing),
-			near || crossing > 0, class, fmt.Sprintf("lost-%d", len(lost)))
+			(near || crossing > 0) && !skipReads, class, fmt.Sprintf("lost-%d", len(lost)))
 	})
 }
 
@@ -337,7 +337,7 @@ func exhaustiveSizes(t *testing.T, c cfg, name string) {
 		} else if near {
 			class = "exh-near-large-boundary"
 		}
-		vlib.Case(fmt.Sprintf("exh %v D=%d reads=%d crossing=%d", c, d, reads, crossing), near || crossing > 0, class)
+		vlib.Case(fmt.Sprintf("exh %v D=%d reads=%d crossing=%d", c, d, reads, crossing), (near || crossing > 0) && reads > 0, class)
 	}
 	vlib.Exhaustive(name, true)
 }
